@@ -595,9 +595,17 @@ impl World for PairWorld {
                 .max(one.clone());
                 let a1 = a1.min(cap1.clone());
                 let a2 = a2.min(cap2.clone());
-                let (m1, m2) = match rng.below(5) {
+                // what the pool would use of this payment (both sides), to aim minimums at each guard
+                let q2 = &a1 * &s.r2 / &s.r1;
+                let (u1, u2) = if q2 <= a2 { (a1.clone(), q2) } else { (&a2 * &s.r1 / &s.r2, a2.clone()) };
+                let (m1, m2) = match rng.below(12) {
                     0 => (a1.clone(), a2.clone()),
                     1 => (BigUint::zero(), one.clone()),
+                    2 => (&a1 + &one, one.clone()),          // above the whole payment: must fail
+                    3 => (one.clone(), &a2 + &one),
+                    4 => (u1.clone().max(one.clone()), u2.clone().max(one.clone())), // exactly what is used
+                    5 => (&u1 + &one, one.clone()),          // one above what is used: must fail
+                    6 => (one.clone(), &u2 + &one),
                     _ => (one.clone(), one.clone()),
                 };
                 ('O', format!("addLiq {} {} {} {} {}", u, a1, a2, m1, m2))
@@ -616,9 +624,10 @@ impl World for PairWorld {
                 .min(have.clone());
                 let e1 = &lp * &s.r1 / &s.s;
                 let e2 = &lp * &s.r2 / &s.s;
-                let (m1, m2) = match rng.below(5) {
+                let (m1, m2) = match rng.below(7) {
                     0 => (e1.clone().max(one.clone()), e2.clone().max(one.clone())),
                     1 => (&e1 + &one, one.clone()),
+                    2 => (one.clone(), &e2 + &one),
                     _ => (one.clone(), one.clone()),
                 };
                 if rng.chance(1, 4) {
